@@ -105,6 +105,8 @@ theorem keeps_noteAlloc (k : Nat) : Keeps P (noteAlloc k) := fun _ h => h
 theorem keeps_noteSeen (k : Nat) : Keeps P (noteSeen k) := fun _ h => h
 theorem keeps_noteDev (k : Nat) : Keeps P (noteDev k) := fun _ h => h
 theorem keeps_takeMem : Keeps P takeMem := fun _ h => h
+theorem keeps_setSeq (k : Nat) : Keeps P (setSeq k) := fun _ h => h
+theorem keeps_leaveGas (k : Nat) : Keeps P (leaveGas k) := fun _ h => h
 
 -- the three that write the accounts
 theorem keeps_setWorld {w : World} (h : P w) : Keeps P (setWorld w) := fun _ _ => h
@@ -124,7 +126,7 @@ macro_rules | `(tactic| keeps_leaf) => `(tactic| with_reducible first
   | exact keeps_setStack _ | exact keeps_setMem _ | exact keeps_setPc _ | exact keeps_setRemoved _
   | exact keeps_setRetBuf _ | exact keeps_addLogs _ | exact keeps_orSeen _ _ _ | exact keeps_takeGas _
   | exact keeps_setLastGasCost _ | exact keeps_addRefund _ | exact keeps_addLog _ | exact keeps_noteAlloc _
-  | exact keeps_noteSeen _ | exact keeps_noteDev _ | exact keeps_takeMem)
+  | exact keeps_noteSeen _ | exact keeps_noteDev _ | exact keeps_takeMem | exact keeps_setSeq _ | exact keeps_leaveGas _)
 
 /-- one structural step on a goal `Keeps P m` -/
 macro "keeps_one" : tactic => `(tactic| first
@@ -199,6 +201,12 @@ theorem keeps_haltBody0 (env : Env) (op : Nat) : Keeps P (haltBody0 env op) := b
 theorem keeps_selfGone (env : Env) : Keeps P (selfGone env) := by unfold selfGone; keeps
 macro_rules | `(tactic| keeps_leaf) => `(tactic| with_reducible first
   | exact keeps_copyToMem _ _ | exact keeps_jumpWord _ _ _ | exact keeps_haltBody0 _ _ | exact keeps_selfGone _)
+theorem keeps_deriveAddr (env : Env) (op : Nat) (input : ByteArray) : Keeps P (deriveAddr env op input) := by
+  unfold deriveAddr; keeps
+macro_rules | `(tactic| keeps_leaf) => `(tactic| with_reducible exact keeps_deriveAddr _ _ _)
+theorem keeps_createNotes (env : Env) (addr : Nat) (input : ByteArray) (r : CallRes) : Keeps P (createNotes env addr input r) := by
+  unfold createNotes; keeps
+macro_rules | `(tactic| keeps_leaf) => `(tactic| with_reducible exact keeps_createNotes _ _ _ _)
 theorem keeps_execQuery (env : Env) (op : Nat) : Keeps P (execQuery env op) := by unfold execQuery; keeps
 theorem keeps_chargeOrStop (c : Nat) : Keeps P (chargeOrStop c) := by
   intro s hs
@@ -290,6 +298,49 @@ theorem safe_sstore {n : Nat} {w : World} (a k v : Nat) (hw : SafeW n w) : SafeW
   refine ⟨this.2, ?_⟩
   rw [this.1]; exact ht
 
+/-- storing code (and the forebear) in an account changes no balance -/
+theorem safe_put_code {n : Nat} {w : World} {acc : Account} {a : Nat} (hw : SafeW n w) (h : w.get a = some acc) (c : ByteArray)
+    (f : Option Nat) : SafeW n (w.put { acc with code := c, forebear := f }) := by
+  obtain ⟨hk, ht⟩ := hw
+  refine ⟨keyed_put _ hk, ?_⟩
+  have h1 := total_put (w := w) { acc with code := c, forebear := f } hk
+  have h2 : balOf w ({ acc with code := c, forebear := f } : Account).addr = acc.balance := by
+    show balOf w acc.addr = acc.balance
+    rw [get_addr h]
+    exact balOf_of_get_some h
+  rw [h2] at h1
+  show total (w.put { acc with code := c, forebear := f }) = n
+  have : ({ acc with code := c, forebear := f } : Account).balance = acc.balance := rfl
+  omega
+
+theorem safe_initChildCode {n : Nat} {w : World} (hw : SafeW n w) (creator addr : Nat) (c : ByteArray) :
+    SafeW n (initChildCode creator addr c w) := by
+  unfold initChildCode
+  split
+  · exact hw
+  · rename_i acc hacc
+    exact safe_put_code hw hacc c _
+
+/-- the commit rule of CREATE: the creator continues with its own accounts, or with the constructor's accounts (possibly
+    with the new account's code stored) when the constructor reported no error -/
+theorem safe_settleCreate {n : Nat} (q : Quirks) (ro : Bool) (creator addr : Nat) (w : World) (d : Bool) (rm : List Nat) (r : CallRes)
+    (hw : SafeW n w) (hr : r.err = none → SafeW n r.world) :
+    SafeW n (settleCreate q ro creator addr w d rm r).world := by
+  unfold settleCreate
+  split
+  · exact hw
+  · rename_i he
+    have hr' := hr he
+    split
+    · exact hw
+    · dsimp only
+      split
+      · exact hw
+      · dsimp only
+        split
+        · exact hr'
+        · exact safe_initChildCode hr' _ _ _
+
 section run
 variable {n : Nat} {child : ChildFn}
 
@@ -301,6 +352,41 @@ theorem keeps_callRest (hc : ChildKeeps n child) (env : Env) (hq : env.q.selfDes
   keeps
 
 macro_rules | `(tactic| keeps_leaf) => `(tactic| (with_reducible apply keeps_callRest) <;> assumption)
+
+/-- the accounts the constructor's frame starts with: the creator's, plus the new (empty) account unless the address is taken -/
+theorem safe_childWorld {w : World} {a : Nat} (hw : SafeW n w) : SafeW n (createWorld w a) := by
+  unfold createWorld
+  split
+  · exact hw
+  · rename_i h
+    apply safe_create hw
+    cases hg : w.get a with
+    | none => rfl
+    | some x => simp [hg] at h
+
+theorem keeps_createAfter (env : Env) (addr : Nat) (input : ByteArray) (r : CallRes) (hr : r.err = none → SafeW n r.world) :
+    Keeps (SafeW n) (createAfter env addr input r) := by
+  unfold createAfter
+  keeps
+  all_goals exact safe_settleCreate _ _ _ _ _ _ _ _ (by assumption) hr
+
+theorem keeps_createRun (hc : ChildKeeps n child) (env : Env) (hq : env.q.selfDestructSelfKeeps = true) (v addr : Nat)
+    (input : ByteArray) : Keeps (SafeW n) (createRun child env v addr input) := by
+  unfold createRun
+  keeps
+  all_goals
+    refine keeps_createAfter _ _ _ _ (fun he => ?_)
+    refine hc _ _ _ _ (by rw [createEnv_q]; exact hq) (safe_childWorld (by assumption)) ?_ he
+    simp_all
+
+macro_rules | `(tactic| keeps_leaf) => `(tactic| (with_reducible apply keeps_createRun) <;> assumption)
+
+theorem keeps_createRest (hc : ChildKeeps n child) (env : Env) (hq : env.q.selfDestructSelfKeeps = true) (op v : Nat) :
+    Keeps (SafeW n) (createRest child env op v) := by
+  unfold createRest
+  keeps
+
+macro_rules | `(tactic| keeps_leaf) => `(tactic| (with_reducible apply keeps_createRest) <;> assumption)
 
 theorem keeps_freeRest (hc : ChildKeeps n child) (env : Env) (hq : env.q.selfDestructSelfKeeps = true) (op a : Nat) :
     Keeps (SafeW n) (freeRest child env op a) := by
@@ -334,7 +420,6 @@ theorem keeps_execRegular (hc : ChildKeeps n child) (env : Env) (hq : env.q.self
 theorem keeps_exec (hn : n < U64) (hc : ChildKeeps n child) (env : Env) (hq : env.q.selfDestructSelfKeeps = true) (op : Nat) :
     Keeps (SafeW n) (exec child env op) := by
   unfold exec
-  refine Keeps_ite (fun _ => Keeps_pure _) (fun _ => ?_)
   refine Keeps_ite (fun _ => keeps_execHalt hn env hq op) (fun _ => ?_)
   exact Keeps_ite (fun _ => keeps_execFree hc env hq op) (fun _ => keeps_execRegular hc env hq op)
 
